@@ -400,7 +400,7 @@ def stack_pair(rng, tmpl_i, tmpl_j, d, alpha, beta, near="i", flip_vector=False,
 STATED_DISTANCE, STATED_ANGLE_NORMALS, STATED_ANGLE_VECTOR = 6.0, 35.0, 45.0
 
 
-def stack_straddles(rng, eps_list=(1e-3, 1e-2, 0.1)):
+def stack_straddles(rng, eps_list=(1e-4, 1e-3, 1e-2, 0.1)):
     """placements straddling each of the three thresholds of find_stackings, in both sign cases.
     yields (tag, expected: bool, Structure3D)"""
     # the values the property statement pins (not the live module constants: an edited threshold must show)
